@@ -197,10 +197,82 @@ fn semantic(text: &str) -> String {
     s
 }
 
+fn parse_type(s: &str) -> oq3_semantics::types::Type {
+    // <Ctor>[/w=<u32>|/w=-][/c=0|1][/d=a;b;c][/a=<usize>/b=<usize>][/n=<usize>/r=<Ctor..with ~ instead of />]
+    use oq3_semantics::types::{ArrayDims, IsConst, SubroutineDef, Type};
+    let mut parts = s.split('/');
+    let ctor = parts.next().unwrap();
+    let mut w: Option<u32> = None;
+    let mut c = IsConst::False;
+    let mut d: Vec<usize> = vec![];
+    let (mut a, mut b, mut n) = (0usize, 0usize, 0usize);
+    let mut r = Type::Void;
+    for p in parts {
+        let (k, v) = p.split_once('=').unwrap();
+        match k {
+            "w" => w = if v == "-" { None } else { Some(v.parse().unwrap()) },
+            "c" => c = if v == "1" { IsConst::True } else { IsConst::False },
+            "d" => d = v.split(';').map(|x| x.parse().unwrap()).collect(),
+            "a" => a = v.parse().unwrap(),
+            "b" => b = v.parse().unwrap(),
+            "n" => n = v.parse().unwrap(),
+            "r" => r = parse_type(&v.replace('~', "/")),
+            _ => panic!("bad type field"),
+        }
+    }
+    let dims = || match d.len() {
+        1 => ArrayDims::D1(d[0]),
+        2 => ArrayDims::D2(d[0], d[1]),
+        _ => ArrayDims::D3(d[0], d[1], d[2]),
+    };
+    match ctor {
+        "Bit" => Type::Bit(c),
+        "Qubit" => Type::Qubit,
+        "HardwareQubit" => Type::HardwareQubit,
+        "Int" => Type::Int(w, c),
+        "UInt" => Type::UInt(w, c),
+        "Float" => Type::Float(w, c),
+        "Angle" => Type::Angle(w, c),
+        "Complex" => Type::Complex(w, c),
+        "Bool" => Type::Bool(c),
+        "Duration" => Type::Duration(c),
+        "Stretch" => Type::Stretch(c),
+        "BitArray" => Type::BitArray(dims(), c),
+        "QubitArray" => Type::QubitArray(dims()),
+        "IntArray" => Type::IntArray(dims()),
+        "UIntArray" => Type::UIntArray(dims()),
+        "FloatArray" => Type::FloatArray(dims()),
+        "AngleArray" => Type::AngleArray(dims()),
+        "ComplexArray" => Type::ComplexArray(dims()),
+        "BoolArray" => Type::BoolArray(dims()),
+        "DurationArray" => Type::DurationArray(dims()),
+        "Gate" => Type::Gate(a, b),
+        "SubroutineDef" => Type::SubroutineDef(SubroutineDef { num_params: n, return_type: Box::new(r) }),
+        "Range" => Type::Range,
+        "Set" => Type::Set,
+        "Void" => Type::Void,
+        "ToDo" => Type::ToDo,
+        "Undefined" => Type::Undefined,
+        _ => panic!("bad ctor"),
+    }
+}
+
+fn promote(a: &str, b: &str) -> String {
+    use oq3_semantics::types::{can_cast_literal, promote_types};
+    let (ta, tb) = (parse_type(a), parse_type(b));
+    format!(
+        "{{\"ab\":{},\"ba\":{},\"cast\":{}}}",
+        js(&format!("{:?}", promote_types(&ta, &tb))),
+        js(&format!("{:?}", promote_types(&tb, &ta))),
+        can_cast_literal(&ta, &tb)
+    )
+}
+
 fn run(line: &str) -> String {
     let parts: Vec<&str> = line.split_whitespace().collect();
     match parts.as_slice() {
         ["parse_kinds", k, j] => parse_kinds(k, j),
+        ["promote", a, b] => promote(a, b),
         ["lex", t] => lex(&hex(t)),
         ["lex"] => lex(""),
         ["lexed", t] => lexed(&hex(t)),
